@@ -817,5 +817,6 @@ RULES = [
     ("C13.unreg", rule_unreg),
     ("C13.wake", rule_wake),
     ("C13.stop", rule_stopflag),
+    ("C13.listtrav", lambda c, r: __import__("sa.rules.c15", fromlist=["x"]).rule_listtrav(c, r, "C13.listtrav")),   # the registry of defer queues is walked with these macros
 ]
 FLOORS = {}
